@@ -122,6 +122,33 @@ Definition sets_tunnel (t : str) (o : op) : Prop :=
 Definition mentions_tunnel (t : str) (o : op) : Prop :=
   match o with ORegister _ r => w_tunnel r = t | ORemove _ t' | OLookup _ t' => t' = t | _ => False end.
 
+(* ---- keeping a node address alive.  kept_alive c cl a rem h: along h, starting with a remaining lifetime rem of the
+   address cell cl on its backend's clock, every passing of time fits into the remaining lifetime, every
+   RegisterNodeAddress on that cell re-registers the same address a (and restarts the lifetime at NodeAddressTTL), and no
+   other operation sets the cell.  Operations on other cells, by any nodes, are unrestricted. *)
+Definition cl_adv (cl : cell) (dn db : N) : N := match fst cl with None => db | Some _ => dn end.
+
+Fixpoint kept_alive (c : cfg) (cl : cell) (a : str) (rem : N) (h : list op) : Prop :=
+  match h with
+  | [] => True
+  | o :: h' =>
+      match o with
+      | OTick dn db => cl_adv cl dn db <= rem /\ kept_alive c cl a (rem - cl_adv cl dn db) h'
+      | ORegAddr n id a' =>
+          if cell_eqb (cell_of c n (addr_key c id)) cl
+          then a' = a /\ kept_alive c cl a (c_addr_ttl c) h'
+          else kept_alive c cl a rem h'
+      | _ => sets c o <> Some cl /\ may_del c o <> Some cl /\ kept_alive c cl a rem h'
+      end
+  end.
+
+(* the node of components_session.go: register, then forever { wait interval; register the same address again } *)
+Fixpoint periodic_refresh (n : nat) (id a : str) (dn db : N) (k : nat) : list op :=
+  match k with
+  | O => []
+  | S k' => OTick dn db :: ORegAddr n id a :: periodic_refresh n id a dn db k'
+  end.
+
 Section Proofs.
   Variable gstr : Type.
   Variable enc : waiting -> gstr.
@@ -508,6 +535,96 @@ Section Proofs.
     intros c n t h. induction h as [|o h IH]; intros s cl Hf; [reflexivity|].
     rewrite final_cons. inversion Hf as [|o' h' [A [B C]] Hh]; subst o' h'.
     rewrite (IH _ Hh). apply isolation_step; assumption.
+  Qed.
+
+  (* ---------------------------------------------------------------------------------------------- *)
+  (* node addresses: a refreshed address stays resolvable                                             *)
+  (* ---------------------------------------------------------------------------------------------- *)
+
+  Lemma step_clk_nontick : forall c s o cl, is_tick o = false -> clk (fst (step c s o)) cl = clk s cl.
+  Proof.
+    intros c s o cl H. destruct (step_clocks c s o) as [_ [_ K]]. destruct (K H) as [A B].
+    unfold Routing.clk. destruct (fst cl); [exact A|exact B].
+  Qed.
+
+  Lemma addr_alive_persists : forall c cl a, c_addr_ttl c <> 0 ->
+    forall h s rem d,
+    mem s cl = Some (mkE (SStr (of_addr a)) (Some d)) -> clk s cl + rem <= d ->
+    kept_alive c cl a rem h ->
+    exists d', mem (final c s h) cl = Some (mkE (SStr (of_addr a)) (Some d')) /\ clk (final c s h) cl <= d'.
+  Proof.
+    intros c cl a Httl h. induction h as [|o h IH]; intros s rem d Hm Hd Hk.
+    - exists d. split; [exact Hm|]. rewrite final_nil. lia.
+    - rewrite final_cons. cbn [kept_alive] in Hk.
+      destruct o as [n r|n t|n t|dn db|n id a'|n id].
+      + destruct Hk as [A [B K]]. apply (IH _ rem d); [|  |exact K].
+        * rewrite step_mem_frame; assumption.
+        * rewrite step_clk_nontick by reflexivity. exact Hd.
+      + destruct Hk as [A [B K]]. apply (IH _ rem d); [|  |exact K].
+        * rewrite step_mem_frame; assumption.
+        * rewrite step_clk_nontick by reflexivity. exact Hd.
+      + destruct Hk as [A [B K]]. apply (IH _ rem d); [|  |exact K].
+        * rewrite step_mem_frame; assumption.
+        * rewrite step_clk_nontick by reflexivity. exact Hd.
+      + destruct Hk as [A K]. apply (IH _ (rem - cl_adv cl dn db) d); [exact Hm| |exact K].
+        unfold Routing.step. cbn [fst]. unfold Routing.clk, cl_adv in *. cbn [Routing.now Routing.bnow].
+        destruct (fst cl); lia.
+      + destruct (cell_eqb (cell_of c n (addr_key c id)) cl) eqn:E.
+        * apply cell_eqb_iff in E. destruct Hk as [Ha K]. subst a'.
+          apply (IH _ (c_addr_ttl c) (clk s cl + c_addr_ttl c)); [| |exact K].
+          -- unfold Routing.step. cbn [fst]. rewrite E. rewrite mem_st_set_same.
+             apply N.eqb_neq in Httl. rewrite Httl. reflexivity.
+          -- rewrite step_clk_nontick by reflexivity. lia.
+        * apply (IH _ rem d); [| |exact Hk].
+          -- unfold Routing.step. cbn [fst]. apply eq_trans with (2 := Hm). apply mem_st_set_other.
+             intro K. subst cl. rewrite cell_eqb_refl in E. discriminate.
+          -- rewrite step_clk_nontick by reflexivity. exact Hd.
+      + destruct Hk as [A [B K]]. apply (IH _ rem d); [|  |exact K].
+        * rewrite step_mem_frame; assumption.
+        * rewrite step_clk_nontick by reflexivity. exact Hd.
+  Qed.
+
+  (* keep-alive: after RegisterNodeAddress(id, a), along every history in which the address is re-registered before
+     its remaining lifetime runs out (each refresh restarts NodeAddressTTL) and nobody else sets its key,
+     GetNodeAddress(id) from every node that reads the same cell returns a *)
+  Theorem addr_kept_alive : forall c s n0 id a h n2,
+    (forall x, to_addr (of_addr x) = x) -> c_addr_ttl c <> 0 -> a <> [] ->
+    let cl := cell_of c n0 (addr_key c id) in
+    cell_of c n2 (addr_key c id) = cl ->
+    kept_alive c cl a (c_addr_ttl c) h ->
+    snd (step c (final c (fst (step c s (ORegAddr n0 id a))) h) (OGetAddr n2 id)) = RAddr a.
+  Proof.
+    intros c s n0 id a h n2 addr_codec Httl Ha cl Hcell Hk.
+    assert (Hm : mem (fst (step c s (ORegAddr n0 id a))) cl = Some (mkE (SStr (of_addr a)) (Some (clk s cl + c_addr_ttl c)))).
+    { unfold Routing.step. cbn [fst]. fold cl. rewrite mem_st_set_same. apply N.eqb_neq in Httl. rewrite Httl. reflexivity. }
+    destruct (addr_alive_persists c cl a Httl h _ (c_addr_ttl c) _ Hm) as [d' [Hm' Hd']]; [|exact Hk|].
+    - rewrite step_clk_nontick by reflexivity. lia.
+    - unfold Routing.step at 1. rewrite Hcell. unfold Routing.st_get. rewrite Hm'. cbn [e_dl e_val].
+      apply N.leb_le in Hd'. rewrite Hd'. cbn [orb]. rewrite addr_codec. rewrite (is_nil_false a Ha). reflexivity.
+  Qed.
+
+  (* the refresh loop of the server: any number k of rounds { interval passes; register again }, then any tail of time
+     within one lifetime - the address resolves, however long the node has been up *)
+  Lemma kept_alive_periodic : forall c n id a dn db k tail_n tail_b,
+    let cl := cell_of c n (addr_key c id) in
+    cl_adv cl dn db <= c_addr_ttl c -> cl_adv cl tail_n tail_b <= c_addr_ttl c ->
+    kept_alive c cl a (c_addr_ttl c) (periodic_refresh n id a dn db k ++ [OTick tail_n tail_b]).
+  Proof.
+    intros c n id a dn db k tail_n tail_b cl Hi Ht. induction k as [|k IH].
+    - cbn [periodic_refresh app kept_alive]. split; [exact Ht|exact I].
+    - cbn [periodic_refresh app kept_alive]. split; [exact Hi|]. fold cl. rewrite cell_eqb_refl. split; [reflexivity|exact IH].
+  Qed.
+
+  Theorem refreshed_address_resolves : forall c s n id a dn db k tail_n tail_b n2,
+    (forall x, to_addr (of_addr x) = x) -> c_addr_ttl c <> 0 -> a <> [] ->
+    let cl := cell_of c n (addr_key c id) in
+    cell_of c n2 (addr_key c id) = cl ->
+    cl_adv cl dn db <= c_addr_ttl c -> cl_adv cl tail_n tail_b <= c_addr_ttl c ->
+    snd (step c (final c (fst (step c s (ORegAddr n id a))) (periodic_refresh n id a dn db k ++ [OTick tail_n tail_b]))
+              (OGetAddr n2 id)) = RAddr a.
+  Proof.
+    intros c s n id a dn db k tail_n tail_b n2 addr_codec Httl Ha cl Hcell Hi Ht.
+    apply addr_kept_alive; [exact addr_codec|exact Httl|exact Ha|exact Hcell|]. apply kept_alive_periodic; assumption.
   Qed.
 
   (* ---- from tunnel ids to cells: with the waiting keys in the shared store every node reads the same cell, and an
